@@ -13,6 +13,8 @@ import (
 	"github.com/gofrs/uuid"
 
 	"github.com/Flowpack/prunner/store"
+
+	"verif/internal/pfield"
 )
 
 // Sizes: number of jobs and length of the filler strings per size class.
@@ -65,7 +67,12 @@ func Make(seed int64, i int, size string) *store.PersistedData {
 		nt := 1 + r.Intn(3)
 		for k := 0; k < nt; k++ {
 			errText := filler(r, sz[1]/4+1)
-			job.Tasks = append(job.Tasks, store.PersistedTask{Name: fmt.Sprintf("t%d", k), Script: []string{filler(r, sz[1]/2)}, Status: "done", ExitCode: int16(r.Intn(200)), Errored: k == 1, Error: &errText})
+			pt := store.PersistedTask{Name: fmt.Sprintf("t%d", k), Script: []string{filler(r, sz[1]/2)}, Status: "done"}
+			// (by name: a persisted field that disappears must not stop the harness from compiling)
+			pfield.Set(&pt, "ExitCode", int16(r.Intn(200)))
+			pfield.Set(&pt, "Errored", k == 1)
+			pfield.Set(&pt, "Error", &errText)
+			job.Tasks = append(job.Tasks, pt)
 		}
 		data.Jobs = append(data.Jobs, job)
 	}
